@@ -10,7 +10,7 @@ RULE = ('trained rulesets and generated ones with ties inside and across PRINCE 
         'for EVERY N in 1..total+2 (total <= 400) or boundary-targeted N; CLI: prince_ling.py to stdout and with -o FILE (must be identical), with --size. '
         'non-trivial = N strictly inside a group of equally probable words; distinct by (ruleset hash, all_lower, N)')
 SHARDS = {'quick': 4, 'thorough': 16}
-N = {'quick': 12, 'thorough': 300}
+N = {'quick': 45, 'thorough': 400}
 
 def gen_case(rng):
     if rng.random() < 0.4:
@@ -24,6 +24,22 @@ def gen_case(rng):
             spec['terms'][lab] = rulesets.gen_terminal(rng, lab, 'counts', 3, 4)
             if lab[0] == 'A':
                 spec['terms']['C' + lab[1:]] = rulesets.gen_terminal(rng, 'C' + lab[1:], 'counts', 2, 2)
+    if rng.random() < 0.4:
+        # ratio ties: the word table and its mask table step down by the same factor, so a (word, mask) pair has two parents whose
+        # probabilities are equal on paper and differ at most in the last bit as floats
+        for lab in [l for l in labels if l[0] == 'A']:
+            r = rng.choice([2, 3, 3, 5, 7, 1.5, 4 / 3])
+            k1, k2 = rng.randint(2, 4), rng.randint(2, 3)
+            t1 = sum(r ** -i for i in range(k1)) * rng.choice([1, 1, 1.25, 2])
+            t2 = sum(r ** -i for i in range(k2)) * rng.choice([1, 1, 1.5])
+            words = [v for v, _ in spec['terms'][lab]]
+            n = int(lab[1:])
+            while len(words) < k1:
+                words.append(''.join(rng.choice('abcdefgh') for _ in range(n)))
+            words = list(dict.fromkeys(words))[:max(k1, len(words))]
+            spec['terms'][lab] = [[w, (r ** -min(i, k1 - 1)) / t1] for i, w in enumerate(words)]
+            masks = list(dict.fromkeys(['L' * n, 'U' + 'L' * (n - 1), 'U' * n]))[:k2]
+            spec['terms']['C' + lab[1:]] = [[m, (r ** -i) / t2] for i, m in enumerate(masks)]
     if rng.random() < 0.3:
         rulesets.add_odd_alpha(rng, spec)
     gstream.add_prince(rng, spec)
@@ -97,7 +113,7 @@ def check_case(run, case, tier='quick'):
                               observed=got[max(0, n - 2):n + 3], expected=U[max(0, n - 2):n + 1]); return
             run.case(h([case.get('spec', case.get('train')), al, n]) if n in inside else None)
         # ---- CLI: stdout vs -o file, and --size
-        if rng.random() < (0.5 if tier == 'quick' else 0.2):
+        if rng.random() < (0.15 if tier == 'quick' else 0.1):
             fl = ['--all_lower'] if al else []
             n = rng.choice([None, rng.choice(Ns)])
             sz = [] if n is None else ['-s', str(n)]
